@@ -186,6 +186,88 @@ fn check_additive(case: &Case, st: &mut Stats) -> CheckResult {
     Ok(Ok(()))
 }
 
+/// Accounted usage must cover what the input-driven structures really hold: a wave of nesting
+/// (open `a` elements, close all but `keep` of them one end tag at a time, open `b` more) is
+/// written tag by tag, and after every write the growth of the driving thread's live heap
+/// (counting allocator) since the first write may exceed the growth of the accounted usage by at
+/// most a constant. A limiter that is told about less than the open-element stack really owns
+/// would let a run succeed under M while holding more than M.
+/// Uncharged structures (hash maps of open names, the text decoder's buffer, ...) measured at about
+/// 2 KiB on the unchanged tree, whatever the depth.
+const COVERED_SLACK: isize = 8 * 1024;
+
+fn check_covered(case: &Case, st: &mut Stats) -> CheckResult {
+    let mut it = case.mode.split(':');
+    let mut num = || it.next().and_then(|s| s.parse::<usize>().ok());
+    let _ = num();
+    let (a, keep, b, sel) = (num().unwrap_or(400), num().unwrap_or(100), num().unwrap_or(600), num().unwrap_or(0));
+    let keep = keep.min(a);
+    let mut d = String::from("<");
+    let mut cuts = vec![1usize];
+    let names = ["div", "span", "section", "x-el"];
+    let mut open: Vec<&str> = vec![];
+    let mut first = true;
+    for i in 0..a {
+        let n = names[i % names.len()];
+        if first {
+            d.push_str(&format!("{n} class=c{}>", i % 7));
+            first = false;
+        } else {
+            d.push_str(&format!("<{n} class=c{}>", i % 7));
+        }
+        open.push(n);
+        cuts.push(d.len());
+    }
+    while open.len() > keep {
+        let n = open.pop().unwrap();
+        d.push_str(&format!("</{n}>"));
+        cuts.push(d.len());
+    }
+    for i in 0..b {
+        let n = names[(i * 3 + 1) % names.len()];
+        d.push_str(&format!("<{n} id=i{i}>"));
+        cuts.push(d.len());
+    }
+    let mut sc = Scenario::new(d.into_bytes());
+    sc.handlers = match sel {
+        0 => vec![wl::el_observer("no-such-tag")],
+        1 => vec![wl::el_observer("[data-none]")],
+        2 => vec![wl::el_observer("no-such-tag > b"), wl::el_observer("p no-such-tag")],
+        _ => vec![wl::el_observer("div.c9")],
+    };
+    sc.prealloc = 0;
+    cuts.pop();
+    sc.cuts = cuts;
+    sc.finish = Finish::Drop;
+    let h = driver::run_opts(&sc, &driver::RunOpts { record_charges: false, light: true, record_positions: false }).map_err(HarnessError)?;
+    st.evaluations += 1;
+    st.distinct.insert(crate::rng::hash_str(&case.mode));
+    if !matches!(h.outcome, Outcome::Dropped) {
+        return Ok(Err(Fail::new("C10.no_panic", format!("nesting wave {}: {:?}", case.mode, h.outcome))));
+    }
+    let (live, usage) = (&h.live_after_write, &h.usage_after_write);
+    if live.len() < 8 || live.len() != usage.len() {
+        return Err(HarnessError(format!("nesting wave: {} heap readings, {} usage readings", live.len(), usage.len())));
+    }
+    let mut worst = 0isize;
+    for i in 1..live.len() {
+        let real = live[i] - live[0];
+        let accounted = usage[i] as isize - usage[0] as isize;
+        worst = worst.max(real - accounted);
+        if real - accounted > COVERED_SLACK {
+            return Ok(Err(Fail::new(
+                "C10.accounted",
+                format!(
+                    "nesting wave (open {a}, close down to {keep}, open {b} more; one tag per write): after write #{i} the rewriter's live heap has grown by {real} bytes since the first write but the limiter accounts for a growth of {accounted} only (allowed slack {COVERED_SLACK}): the open-element bookkeeping is larger than what is charged to the budget"
+                ),
+            )));
+        }
+    }
+    st.bump("c10.accounted_covers_heap");
+    st.add("c10.accounted_covers_heap.worst_uncovered_bytes_sum", worst.max(0) as u64);
+    Ok(Ok(()))
+}
+
 fn check_steady(case: &Case, st: &mut Stats) -> CheckResult {
     let mut it = case.mode.split(':');
     let (_, kind, n) = (it.next(), it.next().unwrap_or("distinct"), it.next().and_then(|s| s.parse::<usize>().ok()).unwrap_or(6000));
@@ -258,6 +340,17 @@ impl Property for C10 {
             ex.check(c);
         }
         if rng.chance(1, 40) {
+            // the accounted usage covers the real heap of the open-element stack through a wave of
+            // nesting (grow, shrink gradually, grow beyond the earlier peak)
+            let a = rng.range(40, if tier == Tier::Quick { 3000 } else { 9000 });
+            let keep = rng.range(0, a / 2);
+            let b = rng.range(a / 4, a + a / 2);
+            let mut c = Case::of(Scenario::new(vec![]));
+            c.mode = format!("covered:{a}:{keep}:{b}:{}", rng.below(4));
+            ex.stats.bump("c10.covered_measurements");
+            ex.check(c);
+        }
+        if rng.chance(1, 40) {
             // one budget: open-element bookkeeping and retained input are charged to the same
             // counter, so the accounted peak of "nesting + an unfinished tag" is the sum of the parts
             let mut c = Case::of(Scenario::new(vec![]));
@@ -294,6 +387,9 @@ impl Property for C10 {
     fn check(&self, case: &Case, st: &mut Stats) -> CheckResult {
         if case.mode.starts_with("steady:") {
             return check_steady(case, st);
+        }
+        if case.mode.starts_with("covered:") {
+            return check_covered(case, st);
         }
         if case.mode.starts_with("additive:") {
             return check_additive(case, st);
